@@ -1,0 +1,27 @@
+//go:build verif
+
+package misc
+
+// Lemma functions for the deductive verifier in /verif (govc).  Compiled only with the build tag
+// `verif`; never called.  Their contracts are in zz_contracts_verif.go.
+
+import "github.com/theQRL/go-qrllib/common"
+
+// C10: decoding the mnemonic of a 48-byte seed returns the seed (hence distinct seeds give distinct mnemonics).
+func verifLemmaSeedRoundTrip(seed [common.SeedSize]uint8) [common.SeedSize]uint8 {
+	return MnemonicToSeedBin(SeedBinToMnemonic(seed))
+}
+
+// C10: ... and for the 51-byte extended seed.
+func verifLemmaExtendedSeedRoundTrip(eseed [common.ExtendedSeedSize]uint8) [common.ExtendedSeedSize]uint8 {
+	return MnemonicToExtendedSeedBin(ExtendedSeedBinToMnemonic(eseed))
+}
+
+// C10: encoding what a phrase decodes to returns the phrase.
+func verifLemmaPhraseRoundTrip(phrase string) string {
+	return SeedBinToMnemonic(MnemonicToSeedBin(phrase))
+}
+
+func verifLemmaExtendedPhraseRoundTrip(phrase string) string {
+	return ExtendedSeedBinToMnemonic(MnemonicToExtendedSeedBin(phrase))
+}
